@@ -422,12 +422,14 @@ theorem ainv_init (items : List Item) (o : Int) (ho : -2 ≤ o ∧ o ≠ -1) : A
 /-- what the three calls do, seen by the application -/
 def ASpec (items : List Item) (a : AS) (e : AEv) (a' : AS) (m : Option Rec) : Prop :=
   match e with
-  | .setOffset o => a'.pos = o ∧ m = none
-  | .env _ _ => a'.pos = a.pos ∧ m = none
+  | .close => a'.pos = a.pos ∧ m = none ∧ a'.closed = true
+  | .setOffset o => if a.closed then a' = a ∧ m = none else a'.pos = o ∧ m = none ∧ a'.closed = false
+  | .env _ _ => a'.pos = a.pos ∧ m = none ∧ a'.closed = a.closed
   | .fetch =>
-    match m with
-    | some r => (feed (allRecords items) a.pos).head? = some r ∧ a'.pos = r.1 + 1
-    | none => a'.pos = a.pos
+    if a.closed then a' = a ∧ m = none     -- io.EOF: nothing is handed out after Close
+    else match m with
+      | some r => (feed (allRecords items) a.pos).head? = some r ∧ a'.pos = r.1 + 1 ∧ a'.closed = false
+      | none => a'.pos = a.pos ∧ a'.closed = false
 
 theorem cstep_set (cfg : RCfg) (items : List Item) (c : CS) (o : Int) :
     cstep cfg items c (.setOffset o) =
@@ -440,29 +442,41 @@ theorem astep_inv (cfg : RCfg) (items : List Item) (nb : Int) (hnb : 0 ≤ nb) (
     {e : AEv} (h : AInv items a) (hok : e.ok items) (hs : astep cfg items a e = some (a', m)) :
     AInv items a' ∧ ASpec items a e a' m := by
   have hlog := allRecords_sorted items nb hnb hwf
-  have hstart : ∀ o, -2 ≤ o ∧ o ≠ -1 →
-      AInv items { c := { fs := { version := a.c.fs.version + 1, queue := a.c.fs.queue,
-                                  fetchers := { tag := a.c.fs.version + 1, start := o } :: a.c.fs.fetchers, accepted := 0 },
-                          loops := (a.c.fs.version + 1, { offset := o }) :: a.c.loops }, pos := o } := by
-    intro o ho
+  have hstart : ∀ o, -2 ≤ o ∧ o ≠ -1 → ∀ x : AS,
+      x.c = { fs := { version := a.c.fs.version + 1, queue := a.c.fs.queue,
+                      fetchers := { tag := a.c.fs.version + 1, start := o } :: a.c.fs.fetchers, accepted := 0 },
+              loops := (a.c.fs.version + 1, { offset := o }) :: a.c.loops } → x.pos = o → AInv items x := by
+    intro o ho x hxc hxp
     have hc := (cstep_sim cfg items nb hnb hwf h.cinv (e := .setOffset o) ho (cstep_set cfg items a.c o)).1
-    exact ⟨hc, ho, fun _ => ⟨{ tag := a.c.fs.version + 1, start := o }, by simp, rfl, by simp⟩⟩
+    refine ⟨by rw [hxc]; exact hc, by rw [hxp]; exact ho, fun _ => ?_⟩
+    rw [hxc, hxp]
+    exact ⟨{ tag := a.c.fs.version + 1, start := o }, by simp, rfl, by simp⟩
   cases e with
+  | close =>
+    simp only [astep, Option.some.injEq, Prod.mk.injEq] at hs
+    obtain ⟨rfl, rfl⟩ := hs
+    exact ⟨⟨h.cinv, h.posok, h.cur⟩, by simp [ASpec]⟩
   | setOffset o =>
     simp only [AEv.ok] at hok
     simp only [astep] at hs
+    by_cases hcl : a.closed = true
+    · simp only [hcl, if_true, Option.some.injEq, Prod.mk.injEq] at hs
+      obtain ⟨rfl, rfl⟩ := hs
+      exact ⟨h, by simp [ASpec, hcl]⟩
+    have hcl' : a.closed = false := by simpa using hcl
+    simp only [hcl', Bool.false_eq_true, if_false] at hs
     by_cases h1 : o = a.pos
     · simp only [h1, if_true, Option.some.injEq, Prod.mk.injEq] at hs
       obtain ⟨rfl, rfl⟩ := hs
-      exact ⟨h, by simp [ASpec, h1]⟩
+      exact ⟨h, by simp [ASpec, h1, hcl']⟩
     · simp only [h1, if_false] at hs
       by_cases h2 : a.c.fs.version = 0
       · simp only [h2, if_true, Option.some.injEq, Prod.mk.injEq] at hs
         obtain ⟨rfl, rfl⟩ := hs
-        exact ⟨⟨h.cinv, hok, fun hv => absurd h2 hv⟩, by simp [ASpec]⟩
+        exact ⟨⟨h.cinv, hok, fun hv => absurd h2 hv⟩, by simp [ASpec, hcl']⟩
       · simp only [h2, if_false, cstep_set, Option.some.injEq, Prod.mk.injEq] at hs
         obtain ⟨rfl, rfl⟩ := hs
-        exact ⟨hstart o hok, by simp [ASpec]⟩
+        exact ⟨hstart o hok _ rfl rfl, by simp [ASpec, hcl']⟩
   | env t x =>
     simp only [AEv.ok] at hok
     simp only [astep] at hs
@@ -490,12 +504,16 @@ theorem astep_inv (cfg : RCfg) (items : List Item) (nb : Int) (hnb : 0 ≤ nb) (
         · split <;> exact hfd
   | fetch =>
     simp only [astep] at hs
+    by_cases hcl : a.closed = true
+    · simp only [hcl, if_true, Option.some.injEq, Prod.mk.injEq] at hs
+      obtain ⟨rfl, rfl⟩ := hs
+      exact ⟨h, by simp [ASpec, hcl]⟩
+    have hcl' : a.closed = false := by simpa using hcl
+    simp only [hcl', Bool.false_eq_true, if_false] at hs
     by_cases h2 : a.c.fs.version = 0
     · simp only [h2, if_true, cstep_set, Option.some.injEq, Prod.mk.injEq] at hs
       obtain ⟨rfl, rfl⟩ := hs
-      have := hstart a.pos h.posok
-      simp only [h2] at this
-      exact ⟨this, by simp [ASpec]⟩
+      exact ⟨hstart a.pos h.posok _ (by simp [h2]) rfl, by simp [ASpec, hcl']⟩
     · simp only [h2, if_false] at hs
       cases hc : cstep cfg items a.c .fetch with
       | none => simp [hc] at hs
@@ -541,7 +559,7 @@ theorem astep_inv (cfg : RCfg) (items : List Item) (nb : Int) (hnb : 0 ≤ nb) (
               simp only
               rw [← htail, ← List.drop_drop, hfd, hhead]
               simp
-            · simp only [ASpec, and_true]
+            · simp only [ASpec, hcl', Bool.false_eq_true, if_false, and_true]
               rw [hhead]; rfl
 
 end KV.C02
